@@ -256,18 +256,20 @@ func dispOf(handled bool) string {
 // ---------------------------------------------------------------------------- end to end
 
 type worker struct {
-	id         int
-	e          *env.Env
-	t          *tracer.Tracer
-	conns      map[int]bool      // backend connection id -> established (its session's own USE, if any, is behind it)
-	seenBk     map[string]string // token -> op seen at the backend
-	local      map[string]Example
-	seq        int
-	keyspaces  []string
-	failedUses int
-	startup    bool // scanning the events of the proxy's start-up
-	res        *result
-	mis        *groups
+	id           int
+	e            *env.Env
+	t            *tracer.Tracer
+	conns        map[int]bool      // backend connection id -> established (its session's own USE, if any, is behind it)
+	seenBk       map[string]string // token -> op seen at the backend
+	local        map[string]Example
+	seq          int
+	keyspaces    []string
+	failedUses   int
+	nbeh         int
+	graphPayload bool
+	startup      bool // scanning the events of the proxy's start-up
+	res          *result
+	mis          *groups
 }
 
 type result struct {
@@ -405,7 +407,13 @@ type opResult struct {
 func (w *worker) roundtrip(c *cqlclient.Client, stream int16, msg message.Message) opResult {
 	tok := w.token()
 	frm := frame.NewFrame(c.Version, stream, msg)
-	frm.SetCustomPayload(map[string][]byte{"verif-token": []byte(tok)})
+	pl := map[string][]byte{"verif-token": []byte(tok)}
+	if w.graphPayload {
+		// what DSE graph requests carry; it says nothing about who answers a CQL statement
+		pl["graph-source"] = []byte("g")
+		pl["graph-language"] = []byte("gremlin-groovy")
+	}
+	frm.SetCustomPayload(pl)
 	n0 := w.t.Len()
 	r, err := c.Roundtrip(frm, tok, "c09", 8*time.Second)
 	evs := w.t.Events()
@@ -430,6 +438,9 @@ func (w *worker) runBehaviour(b *Beh, sample bool) {
 	// ingest stray events and start from an empty log
 	w.scan(w.t.Events(), "")
 	w.t.Reset()
+	// every fifth behaviour is sent with the custom payload of a graph request
+	w.nbeh++
+	w.graphPayload = w.nbeh%5 == 0
 	version := primitive.ProtocolVersion4
 	for i := range b.Steps {
 		if b.Steps[i].ReqKs != "" {
